@@ -85,7 +85,7 @@ structure PrecTables where
   binary : List (Operator × Int)
   other : List (Tok × Int)        -- `::`, `[` and the keyword operators
   unary : List Operator
-  deriving Repr, Inhabited
+  deriving Repr, Inhabited, DecidableEq
 
 /-- the tables as they stand in /repo HEAD -/
 def PrecTables.code : PrecTables where
